@@ -270,11 +270,16 @@ pub fn gen_plan(property: &str, seed: u64, index: u64, tier: Tier) -> Plan {
                 &mut rng,
                 &[(StartKind::Initial, 3), (StartKind::Suite, 4), (StartKind::Special, 3), (StartKind::Random, 3), (StartKind::Endgame, 1), (StartKind::Terminal, 2)],
             );
-            start = s;
+            start = if rng.chance(1, 8) { crate::gen::random_setup(&mut rng, 2) } else { s };
             scenario = "count-positions";
             let crowded = start.piece_count() > 16;
             let sparse = start.piece_count() <= 7;
+            let bare = start.piece_count() <= 4;
+            // real rayon pool size for this run's counts (1 = the harness's global one-thread pool)
+            knobs.insert("pool".into(), *rng.pick(&[1i64, 1, 2, 3, 4, 5, 6, 7, 8, 9, 12, 16]));
             let maxd: usize = match (thorough, crowded, sparse) {
+                (false, _, true) if bare => 5,
+                (true, _, true) if bare => 6,
                 (false, _, true) => 4,
                 (true, _, true) => 5,
                 (false, true, _) => 2,
@@ -655,18 +660,33 @@ pub fn exec(plan: &Plan) -> Outcome {
                     want += cur.perft(k);
                 }
                 stats.add("reference-perft-leaves", want);
-                let got = if *which == 1 {
+                let pool_size = plan.knob("pool", 1) as usize;
+                let mut count = |board: &mut Board, gen: &mut MoveGenerator| -> u64 {
+                    if *which == 1 {
+                        gen.count_positions(*d, board, color(cur.stm)) as u64
+                    } else {
+                        MoveGenerator::new().count_positions(*d, board, color(cur.stm)) as u64
+                    }
+                };
+                if *which == 1 {
                     stats.bump("fault/generator-reused");
-                    gen.count_positions(*d, &mut board, color(cur.stm)) as u64
+                }
+                let got = if pool_size > 1 {
+                    // a real rayon pool of the given size: the count must not depend on it
+                    stats.bump(&format!("fault/rayon-pool-size/{}", pool_size));
+                    match rayon::ThreadPoolBuilder::new().num_threads(pool_size).stack_size(64 << 20).build() {
+                        Ok(pool) => pool.install(|| count(&mut board, &mut gen)),
+                        Err(_) => count(&mut board, &mut gen),
+                    }
                 } else {
-                    MoveGenerator::new().count_positions(*d, &mut board, color(cur.stm)) as u64
+                    count(&mut board, &mut gen)
                 };
                 evals += 1;
                 digest.eat(got);
                 if prop == "C10" && got != want {
                     out.violation = Some(Violation {
                         class: format!("C10/count-differs-from-reference/{}-generator/{}", if *which == 1 { "used" } else { "fresh" }, if got > want { "too-many" } else { "too-few" }),
-                        detail: format!("{}: count_positions({}) = {}, reference {} (lru capacity {})", cur.to_fen(), d, got, want, plan.lru),
+                        detail: format!("{}: count_positions({}) = {}, reference {} (lru capacity {}, rayon pool size {})", cur.to_fen(), d, got, want, plan.lru, pool_size),
                         at_op: i,
                     });
                     break;
